@@ -108,6 +108,17 @@ static int split(char * line, char ** argv)
     return argc;
 }
 
+/* fill the stack region the next call will use with a pattern, so that a local variable the
+ * library forgets to initialise does not happen to be zero */
+static void __attribute__((noinline)) h_dirty_stack(void)
+{
+    volatile unsigned char buf[16384];
+    size_t i;
+    for (i = 0; i < sizeof(buf); i++) {
+        buf[i] = H_POISON;
+    }
+}
+
 static void run_script(const struct h_area * a, char ** lines, size_t n)
 {
     size_t i;
@@ -124,6 +135,7 @@ static void run_script(const struct h_area * a, char ** lines, size_t n)
             continue;
         }
         linelen = 0;
+        h_dirty_stack();
         a->op(argc, argv);
     }
 }
